@@ -1,39 +1,35 @@
 ---------------------------- MODULE MCExprParse ----------------------------
-(* model-checking constants for ExprParse (C19) *)
+(* model-checking vocabularies for ExprParse (C19); the harness selects families by name through a
+   generated module that defines VFFams *)
 EXTENDS ExprParse
-NoStrings == {}
+None == {}
 AllWraps == {"scope", "jump", "mean"}
 AllMuts == {"unknown", "index-count", "index-symbol", "number-position", "repeated-power", "repeated-fraction", "misplaced-minus"}
-SyntaxMuts == {"number-position", "repeated-power", "repeated-fraction", "misplaced-minus"}
 AllCors == {"del-bracket", "swap-close", "del-op-space", "pow-space-before", "pow-space-after", "call-space", "index-space", "trailing-op"}
-\* exhaustive, quick
-VarsA == {"c", "a", "B"}
-NumsA == {"2"}
-FuncsA == {"sqr", "g"}
-ToksA == {"i", "j", "0"}
-GToksA == {"i", "j"}
-ExpsA == {"2", "-1"}
-\* mutants and corruptions over a small vocabulary
-VarsB == {"c", "a"}
-ToksB == {"i"}
-GToksB == {"i"}
-FuncsB == {"sqr", "g"}
-ExpsB == {"2"}
-WrapsB == {"scope", "jump"}
-\* numerals, traces and permutations on arrays of rank 2 and 3
-VarsC == {"A", "B", "T", "u"}
-ToksC == {"i", "j", "k", "0", "2"}
-VarsD == {"T", "A"}
-ToksD == {"i", "j", "k"}
-FuncsD == {"G"}
-\* everything (simulation)
-AllVars == {"c", "e", "a", "b", "u", "A", "B", "T"}
-AllNums == {"2", "3", "10", "0.5", ".5", "1.5", "0"}
-AllFuncs == {"sqr", "abs", "opposite", "g", "h", "G"}
-AllToks == {"i", "j", "k", "0", "1", "2"}
-AllGToks == {"i", "j", "k", "0", "1"}
-AllExps == {"2", "3", "-1", "-2", "0"}
-OneStyle == {1}
-ToksIJ == {"i", "j"}
-VarsT == {"T"}
+IJ == {"i", "j"}
+IJK == {"i", "j", "k"}
+W2 == {"scope", "jump"}
+\* two leaves, two productions: scalars, a vector, a 2x3 matrix, a pointwise and a generating function
+FamCore == Fam(2, 2, 2, {"c", "a", "B"}, {"2"}, {"sqr", "g"}, IJ, IJ, {"2", "-1"}, AllWraps, None, None, None)
+FamCore0 == Fam(2, 2, 2, {"c", "a", "B"}, {"2"}, {"sqr", "g"}, {"i", "j", "0"}, IJ, {"2", "-1"}, AllWraps, None, None, None)
+\* every rule-breaking constructor / every token corruption and the whitespace style, small vocabulary
+FamMut == Fam(2, 2, 2, {"c", "a"}, {"2"}, {"g"}, {"i"}, {"i"}, {"2"}, {"scope"}, AllMuts, None, None)
+FamMut3 == Fam(3, 2, 3, {"c"}, {"2"}, None, None, None, {"2"}, None, {"number-position", "repeated-power", "repeated-fraction", "misplaced-minus"}, None, None)
+FamCor == Fam(2, 2, 2, {"c", "a"}, {"2"}, {"sqr", "g"}, {"i"}, {"i"}, {"2"}, W2, None, AllCors, {1})
+\* one leaf: numerals, traces, selections on arrays of rank 1..3
+FamRank3 == Fam(1, 2, 1, {"A", "B", "T", "u"}, None, None, {"i", "j", "k", "0", "2"}, None, {"2"}, W2, None, None, None)
+\* one leaf, one call: generated axes with numerals, traced with the argument's axes
+FamGen == Fam(1, 1, 1, {"A", "B", "T", "u"}, None, {"g", "h", "G"}, IJK, {"i", "j", "k", "0", "1"}, None, None, None, None, None)
+\* two leaves of rank 3 (and 2): transposition to the first term's order, products with several common indices
+FamPerm == Fam(2, 1, 2, {"T"}, None, None, IJK, None, None, None, None, None, None)
+FamPerm2 == Fam(2, 1, 2, {"T", "A"}, None, {"G"}, IJK, IJK, None, None, None, None, None)
+\* three leaves
+FamThree == Fam(3, 3, 3, {"c", "a"}, {"2"}, {"sqr", "g"}, IJ, {"i"}, {"2"}, W2, None, None, None)
+\* everything (random walks)
+FamSim == Fam(4, 6, 3, {"c", "e", "a", "b", "u", "A", "B", "T"}, {"2", "3", "10", "0.5", ".5", "1.5", "0"},
+              {"sqr", "abs", "opposite", "g", "h", "G"}, {"i", "j", "k", "0", "1", "2"}, {"i", "j", "k", "0", "1"},
+              {"2", "3", "-1", "-2", "0"}, AllWraps, AllMuts, AllCors, {1})
+\* tiny vocabularies for the spec mutants
+FamT1 == Fam(1, 0, 1, {"T"}, None, None, IJK, None, None, None, None, None, None)
+FamSmall == Fam(2, 2, 2, {"c", "a", "A"}, None, None, {"i"}, None, None, {"scope"}, None, None, None)
 =============================================================================
